@@ -31,11 +31,14 @@ def sortKV (m : KV) : KV := m.foldl (fun acc kv => insertKV kv acc) []
 def showPairs (m : KV) : String := joinList "," ((sortKV m).map fun kv => s!"{kv.1}:{kv.2}")
 
 def hour : Int := 3600000000000
+/-- the instant of the notification (any non-zero instant: 0 stands for "no end") -/
+def nowT : Int := 10 * hour
 
 def parseAlert (s : String) : Option Alert :=
   match s.splitOn "|" with
   | [e, l, a] => some { labels := parsePairs l, annotations := parsePairs a,
-                        ends := if e = "p" ∨ e = "P" then -hour else if e = "f" ∨ e = "F" then hour else 0 }
+                        ends := if e = "p" ∨ e = "P" then nowT - hour else if e = "f" ∨ e = "F" then nowT + hour
+                                else if e = "t" then nowT else 0 }
   | _ => none
 
 def parseAlerts (s : String) : List Alert := (splitList ";" s).filterMap parseAlert
@@ -71,9 +74,9 @@ def specs (sent : List Alert) (obs : List String) : List Msg :=
       ((get_ a).all fun p => (rest.all fun b => TemplateData.get (get_ b) p.1 = p.2) → c.contains p)
   -- the listed status of every alert is its own (EndsAt against now, nothing else), and the notification fires iff one of
   -- the alerts handed to the integration does: both against the batch that was sent, not against the listed items
-  let wantS : List String := sent.map fun a => statusOf 0 a
+  let wantS : List String := sent.map fun a => statusOf nowT a
   let gotS : List String := items.map fun it => it.headD ""
-  let anySent := sent.any fun a => !resolved 0 a
+  let anySent := sent.any fun a => !resolved nowT a
   (if items.length ≠ sent.length ∨ gotL ≠ wantL then
      [Msg.propfail "data_lists_exactly_batch" "wrong-list" s!"sent={wantL} listed={gotL}"] else [])
   ++ (if items.length = sent.length ∧ gotS ≠ wantS then
@@ -90,7 +93,7 @@ def tagsOf (alerts : List Alert) (d : Data) : List Msg :=
   ++ (if alerts.length ≥ 2 ∧ d.commonLabels.isEmpty then [.tag "common:none"] else [])
   ++ (if (firing d).length > 0 ∧ (resolvedItems d).length > 0 then [.tag "status:mixed"] else [])
   ++ (if alerts.any (fun a => a.annotations.any (·.2 = "")) then [.tag "annotation:empty-value"] else [])
-  ++ (if alerts.all (fun a => resolved 0 a) ∧ !alerts.isEmpty then [.tag "status:all-resolved"] else [])
+  ++ (if alerts.all (fun a => resolved nowT a) ∧ !alerts.isEmpty then [.tag "status:all-resolved"] else [])
 
 /-- tags for the Timeout flag (read off the raw tokens: the model's alerts do not carry it) -/
 def flagTags (as : String) : List Msg :=
@@ -98,20 +101,26 @@ def flagTags (as : String) : List Msg :=
   (if es.contains "P" then [.tag "timeout-flag:resolved"] else [])
   ++ (if es.contains "F" then [.tag "timeout-flag:firing"] else [])
 
-def step (σ : St) (op obs : List String) : St × List Msg :=
-  match op with
-  | ["data", recv, sr, as] =>
+def stepData (σ : St) (recv sr as : String) (obs : List String) : St × List Msg :=
     let alerts := parseAlerts as
-    let snt := sent (sr = "1") 0 alerts
-    let d := data 0 (quoteMeta (unhexStr recv)) snt
+    let snt := sent (sr = "1") nowT alerts
+    let d := data nowT (quoteMeta (unhexStr recv)) snt
     (σ, expectEq "data" (" ".intercalate (dump d)) (" ".intercalate obs) ++ specs snt obs ++ tagsOf snt d
           ++ (if sr = "0" ∧ snt.length < alerts.length then [.tag "send_resolved:dropped"] else []) ++ flagTags as)
+
+def step (σ : St) (op obs : List String) : St × List Msg :=
+  match op with
+  | ["data", recv, sr, as, "tie"] =>
+    -- the same op under a standing clock: alerts with token `t` end at the very instant of the notification (resolved)
+    let (σ', ms) := stepData σ recv sr as obs
+    (σ', ms ++ [.tag "data:ends-at-this-instant"])
+  | ["data", recv, sr, as] => stepData σ recv sr as obs
   | ["webhookp", recv, as] =>
     -- a custom payload is rendered on the data of this very notification (same statements as for the default payload:
     -- data_lists_exactly_batch, status_firing_iff_any, common_is_intersection against the batch that was sent),
     -- however many notifications the integration sent before
     let alerts := parseAlerts as
-    let d := data 0 (quoteMeta (unhexStr recv)) alerts
+    let d := data nowT (quoteMeta (unhexStr recv)) alerts
     let shape : List Msg := if (kv obs "alerts").isSome then [] else
       [Msg.propfail "data_lists_exactly_batch" "custom-payload-unreadable" s!"{" ".intercalate obs}"]
     ({ σ with dummy := σ.dummy + 1 }, expectEq "webhookp" (" ".intercalate ("trunc=0" :: dump d)) (" ".intercalate obs)
@@ -120,7 +129,7 @@ def step (σ : St) (op obs : List String) : St × List Msg :=
   | ["webhook", mx, recv, as] =>
     let alerts := parseAlerts as
     let (listed, cut) := AM.Trunc.truncAlerts (toNat! mx) alerts
-    let d := data 0 (quoteMeta (unhexStr recv)) listed
+    let d := data nowT (quoteMeta (unhexStr recv)) listed
     let obsCut := kvNat obs "trunc" 0
     let n := (splitList ";" ((kv obs "alerts").getD "-")).length
     let pf : List Msg :=
